@@ -123,6 +123,8 @@ Fixpoint row_insert (r : list Z) (l : list (list Z)) : list (list Z) :=
   end.
 Definition row_sort (l : list (list Z)) : list (list Z) := fold_right row_insert [] l.
 Definition obs_rows (l : list (list Z)) : list Z := concat (row_sort l).
+(* rows in the order the code fixes (space.agents: insertion order of _agent_to_index / active_agents) *)
+Definition obs_rows_in_order (l : list (list Z)) : list Z := concat l.
 
 Inductive result (A : Type) := Ok (a : A) | Err (kind : Z).
 Arguments Ok {A}. Arguments Err {A}.
